@@ -15,7 +15,7 @@ from twisted.test import proto_helpers                          # noqa: E402
 
 import txtorcon                                                  # noqa: E402
 from txtorcon import TorControlProtocol, TorConfig, TorProtocolError   # noqa: E402
-from txtorcon.endpoints import TCPHiddenServiceEndpoint          # noqa: E402
+from txtorcon.endpoints import TCPHiddenServiceEndpoint, TCPHiddenServiceEndpointParser   # noqa: E402
 from txtorcon.onion import AuthBasic, AuthStealth                # noqa: E402
 from txtorcon.torcontrolprotocol import TorDisconnectError       # noqa: E402
 
@@ -65,27 +65,28 @@ class InjectedConfigError(Exception):
 
 # endpoint configurations: (name, kind, builder)
 def configurations():
-    return ["eph3", "eph2key", "eph3single", "fsdir3", "fsimplicit", "tor_eph", "tor_fs", "eph3_localport", "fs_localport"]
+    return ["eph3", "eph2key", "eph3single", "fsdir3", "fsimplicit", "tor_eph", "tor_fs", "eph3_localport", "fs_localport",
+            # built from an endpoint description string ("onion:80:controlPort=...:..."): the control connection is made
+            # by the endpoint itself (TCPHiddenServiceEndpoint.system_tor -> txtorcon.connect)
+            "str_eph", "str_key", "str_fs_localport", "str_single"]
 
 
-INVALID = ["eph_stealth", "eph_with_dir", "fs_with_key", "fs_single", "both_auth"]
+INVALID = ["eph_stealth", "eph_with_dir", "fs_with_key", "fs_single", "both_auth",
+           "str_bad_version", "str_dir_and_key", "str_bad_singlehop", "str_version_word"]
 
 
 class Run(object):
     def __init__(self, cfg, fault):
         self.cfg, self.fault = cfg, fault
         self.proto = TorControlProtocol()
-        self.tr = proto_helpers.StringTransport()
-        self.sim = simtor.SimTor(self.proto, self.tr)
-        self.sim.info.update({"config/names": ["Nickname String", "HiddenServiceOptions Virtual"], "config/defaults": ["Nickname Unnamed"],
-                              "onions/current": "", "onions/detached": ""})
-        self.sim.conf["hiddenserviceoptions"] = None
-        self.sim.handlers["ADD_ONION"] = lambda line: ("250-ServiceID=%s\r\n250-PrivateKey=ED25519-V3:a2V5\r\n250 OK\r\n" % SID).encode()
-        self.proto.makeConnection(self.tr)
-        self.sim.pump()
-        d = TorConfig.from_protocol(self.proto)
-        self.sim.pump()
-        self.config = d.result
+        self.connect_sim(self.proto)
+        self.config = None
+        if not cfg.startswith("str_"):
+            self.proto.makeConnection(self.tr)
+            self.sim.pump()
+            d = TorConfig.from_protocol(self.proto)
+            self.sim.pump()
+            self.config = d.result
         self.sim.hold = lambda line: line.startswith("ADD_ONION") or line.startswith("SETCONF HiddenService")
         self.reactor = ListenReactor(fail_bind=(fault == "bind"))
         self.config_d = defer.Deferred()
@@ -97,6 +98,20 @@ class Run(object):
         self.public = 80
         self.nlog = len(self.sim.log)
         self.asked = []
+
+    def connect_sim(self, proto):
+        self.proto = proto
+        self.tr = proto_helpers.StringTransport()
+        self.sim = simtor.SimTor(self.proto, self.tr)
+        self.sim.info.update({"config/names": ["Nickname String", "HiddenServiceOptions Virtual"], "config/defaults": ["Nickname Unnamed"],
+                              "onions/current": "", "onions/detached": ""})
+        self.sim.conf["hiddenserviceoptions"] = None
+        self.sim.handlers["ADD_ONION"] = lambda line: ("250-ServiceID=%s\r\n250-PrivateKey=ED25519-V3:a2V5\r\n250 OK\r\n" % SID).encode()
+
+    def from_string(self, public, **kw):
+        """what serverFromString(reactor, "onion:<public>:k=v:...") does once Twisted has found the parser plugin"""
+        self.public = int(public)
+        return TCPHiddenServiceEndpointParser().parseStreamServer(self.reactor, public, **kw)
 
     def build(self):
         r, c = self.reactor, self.config_d
@@ -131,6 +146,23 @@ class Run(object):
             self.tmp = tempfile.mkdtemp(prefix="verif-hs-")
             self.public = 22
             return tor.create_filesystem_onion_endpoint(22, self.tmp, version=3)
+        if cfg == "str_eph":
+            return self.from_string("80", controlPort="9051", version="3")
+        if cfg == "str_key":
+            return self.from_string("8080", controlPort="9051", privateKey="ED25519-V3:a2V5")
+        if cfg == "str_single":
+            return self.from_string("443", controlPort="9051", version="3", singleHop="true")
+        if cfg == "str_fs_localport":
+            self.tmp = tempfile.mkdtemp(prefix="verif-hs-")
+            return self.from_string("22", controlPort="9051", hiddenServiceDir=self.tmp, localPort="4321", version="3")
+        if cfg == "str_bad_version":
+            return self.from_string("80", controlPort="9051", version="4")
+        if cfg == "str_version_word":
+            return self.from_string("80", controlPort="9051", version="three")
+        if cfg == "str_dir_and_key":
+            return self.from_string("80", controlPort="9051", hiddenServiceDir="/tmp/nonexistent-hs", privateKey="ED25519-V3:a2V5")
+        if cfg == "str_bad_singlehop":
+            return self.from_string("80", controlPort="9051", singleHop="maybe")
         # invalid combinations
         if cfg == "eph_stealth":
             return TCPHiddenServiceEndpoint(r, c, 80, ephemeral=True, auth=AuthStealth(["alice"]))
@@ -158,6 +190,20 @@ class Run(object):
                 d = self.ep.listen(Factory.forProtocol(Protocol))
                 d.addBoth(self.fired.append)
                 self.sim.pump()
+            elif a == "ConfigReady" and self.cfg.startswith("str_"):
+                # the endpoint's own control connection (to 127.0.0.1:9051) is made, or refused
+                host, port, factory, timeout, bind = self.reactor.tcpClients[0]
+                assert (host, port) == ("127.0.0.1", 9051), (host, port)
+                if self.fault == "config":
+                    factory.clientConnectionFailed(None, failure.Failure(error.ConnectionRefusedError("injected")))
+                else:
+                    proto = factory.buildProtocol(IPv4Address("TCP", host, port))
+                    hold = self.sim.hold
+                    self.connect_sim(proto)
+                    self.sim.hold = hold
+                    self.nlog = 0
+                    proto.makeConnection(self.tr)
+                    self.sim.pump()
             elif a == "ConfigReady":
                 if self.config_d is not None:
                     if self.fault == "config":
@@ -222,7 +268,7 @@ class Run(object):
                 result = "err"
                 if v.check(ValueError) and self.ep is None:
                     why = "invalid"
-                elif v.check(InjectedConfigError):
+                elif v.check(InjectedConfigError) or (self.cfg.startswith("str_") and v.check(error.ConnectError)):
                     why = "config"
                 elif v.check(error.CannotListenError):
                     why = "bind"
